@@ -632,8 +632,17 @@ def m_strip_prefix(e,run,a,f):
         rest=sb[len(pb):]
         return some(Ref(Cell(Str(rest,getattr(s,'is_str',True))) if not isinstance(s,VecO) else Cell(u8vec(rest))))
     return none()
+def _is_closure(p): return type(p).__name__=='Closure' or (isinstance(p,Agg) and str(p.ty).startswith('{closure'))
 def m_contains_str(e,run,a,f):
-    sb=byte_list(a[0]); p=deref(a[1])
+    p=deref(a[1])
+    if _is_closure(p) or isinstance(p,VecO):
+        # pattern = predicate on characters (`|c| ..`) or a set of characters (`['*','?']`)
+        for ch in m_str_chars(e,run,[a[0]],f).items:
+            if isinstance(p,VecO): hit=b_or(*[e.eq(run,ch,x) for x in p.items])
+            else: hit=e.call_value(run,a[1],[ch])
+            if run.branch_bool(hit,'contains.pred'): return Bool(True)
+        return Bool(False)
+    sb=byte_list(a[0])
     pb=list(chr(p.v).encode()) if isinstance(p,Char) else byte_list(p)
     for i in range(0,len(sb)-len(pb)+1):
         if run.branch_bool(bytes_eq(sb[i:i+len(pb)],pb),'contains'): return Bool(True)
@@ -1634,8 +1643,17 @@ def m_str_trim(kind):
     return m
 def m_str_case(kind):
     def m(e,run,a,f):
-        c=conc_bytes(byte_list(a[0]))
-        if c is None: raise Unsupported('case conversion on symbolic string')
+        bl=byte_list(a[0]); c=conc_bytes(bl)
+        if c is None:
+            # symbolic bytes: ASCII letters are shifted, every other byte (incl. parts of multi-byte characters for the ascii variants) stays
+            out=[]
+            for x in bl:
+                if isinstance(x,int): out.append((x+32 if 0x41<=x<=0x5a else x) if kind in ('lower','alower') else (x-32 if 0x61<=x<=0x7a else x)); continue
+                if kind in ('lower','upper') and not (allowed(x) is not None and all(v<0x80 for v in allowed(x))):
+                    if not run.branch_bool(Bool(z3.ULT(x,0x80)),'case.ascii'): raise Unsupported('Unicode case conversion of a symbolic non-ASCII character')
+                if kind in ('lower','alower'): out.append(z3.simplify(z3.If(z3.And(z3.UGE(x,0x41),z3.ULE(x,0x5a)),x+32,x)))
+                else: out.append(z3.simplify(z3.If(z3.And(z3.UGE(x,0x61),z3.ULE(x,0x7a)),x-32,x)))
+            return StringO(out)
         s=c.decode(); s={'lower':s.lower(),'upper':s.upper(),'alower':''.join(ch.lower() if ord(ch)<128 else ch for ch in s),'aupper':''.join(ch.upper() if ord(ch)<128 else ch for ch in s)}[kind]
         return mk_string(s)
     return m
@@ -1740,9 +1758,62 @@ def register_more(E):
         M(r'<impl %s>::saturating_sub$'%w,m_saturating('Sub')); M(r'<impl %s>::saturating_add$'%w,m_saturating('Add'))
         M(r'<impl %s>::checked_sub$'%w,m_checked('Sub')); M(r'<impl %s>::checked_add$'%w,m_checked('Add')); M(r'<impl %s>::checked_mul$'%w,m_checked('Mul'))
         M(r'<impl %s>::wrapping_sub$'%w,m_wrapping('Sub')); M(r'<impl %s>::wrapping_add$'%w,m_wrapping('Add'))
+def _zi(x): return z3.BitVecVal(x.v,x.w) if x.conc() else x.v
+def _mki(w,s,t):
+    t=z3.simplify(t)
+    return Int(w,s,t.as_long()) if z3.is_bv_value(t) else Int(w,s,t)
+def m_int_abs(kind):
+    # kind: abs (panics / wraps on MIN like the release build: overflow checks are on in the dump, so `abs` of MIN panics),
+    # unsigned_abs, saturating_abs, wrapping_abs, checked_abs, wrapping_neg, checked_neg, saturating_neg
+    def m(e,run,a,f):
+        x=deref(a[0]); w=x.w; v=_zi(x); MIN=z3.BitVecVal(1<<(w-1),w); MAX=z3.BitVecVal((1<<(w-1))-1,w)
+        is_min=Bool(z3.simplify(v==MIN)); neg=z3.If(v<0,-v,v)
+        if kind=='unsigned_abs': return _mki(w,False,neg)
+        if kind=='wrapping_abs': return _mki(w,True,neg)
+        if kind=='saturating_abs': return _mki(w,True,z3.If(v==MIN,MAX,neg))
+        if kind=='wrapping_neg': return _mki(w,x.s,-v)
+        if kind=='saturating_neg': return _mki(w,True,z3.If(v==MIN,MAX,-v))
+        if kind in ('checked_abs','checked_neg'):
+            if run.branch_bool(is_min,'int.is_min'): return none()
+            return some(_mki(w,True,neg if kind=='checked_abs' else -v))
+        if kind=='abs':
+            if run.branch_bool(is_min,'int.is_min'): raise Panic('attempt to negate with overflow')
+            return _mki(w,True,neg)
+        raise Unsupported(kind)
+    return m
+def m_int_signum(e,run,a,f):
+    x=deref(a[0]); v=_zi(x); return _mki(x.w,True,z3.If(v<0,z3.BitVecVal(-1,x.w),z3.If(v==0,z3.BitVecVal(0,x.w),z3.BitVecVal(1,x.w))))
+def m_int_sign(which):
+    def m(e,run,a,f):
+        x=deref(a[0]); v=_zi(x); t=z3.simplify(v<0 if which=='neg' else v>0)
+        return Bool(z3.is_true(t)) if (z3.is_true(t) or z3.is_false(t)) else Bool(t)
+    return m
+def m_int_abs_diff(e,run,a,f):
+    x,y=deref(a[0]),deref(a[1]); u,v=_zi(x),_zi(y)
+    lt=(u<v) if x.s else z3.ULT(u,v)
+    return _mki(x.w,False,z3.If(lt,v-u,u-v))
+def m_signed_saturating(op):
+    def m(e,run,a,f):
+        x,y=deref(a[0]),deref(a[1]); w=x.w; u,v=z3.SignExt(1,_zi(x)),z3.SignExt(1,_zi(y))
+        r=u+v if op=='Add' else u-v
+        MIN=z3.BitVecVal(-(1<<(w-1)),w+1); MAX=z3.BitVecVal((1<<(w-1))-1,w+1)
+        return _mki(w,True,z3.Extract(w-1,0,z3.If(r<MIN,MIN,z3.If(r>MAX,MAX,r))))
+    return m
+def register_int_more(E):
+    M=E.model
+    for w in ('i8','i16','i32','i64','i128','isize'):
+        for k in ('abs','unsigned_abs','saturating_abs','wrapping_abs','checked_abs','wrapping_neg','checked_neg','saturating_neg'):
+            M(r'<impl %s>::%s$'%(w,k),m_int_abs(k))
+        M(r'<impl %s>::signum$'%w,m_int_signum); M(r'<impl %s>::is_negative$'%w,m_int_sign('neg')); M(r'<impl %s>::is_positive$'%w,m_int_sign('pos'))
+        M(r'<impl %s>::abs_diff$'%w,m_int_abs_diff)
+        M(r'<impl %s>::saturating_add$'%w,m_signed_saturating('Add')); M(r'<impl %s>::saturating_sub$'%w,m_signed_saturating('Sub'))
+        M(r'<impl %s>::checked_sub$'%w,m_checked('Sub')); M(r'<impl %s>::checked_add$'%w,m_checked('Add')); M(r'<impl %s>::checked_mul$'%w,m_checked('Mul'))
+        M(r'<impl %s>::wrapping_sub$'%w,m_wrapping('Sub')); M(r'<impl %s>::wrapping_add$'%w,m_wrapping('Add'))
+    for w in ('u8','u16','u32','u64','usize'):
+        M(r'<impl %s>::abs_diff$'%w,m_int_abs_diff); M(r'<impl %s>::wrapping_neg$'%w,m_int_abs('wrapping_neg'))
 _old_register_all4=register_all
 def register_all(E):
-    _old_register_all4(E); register_more(E)
+    _old_register_all4(E); register_more(E); register_int_more(E)
 def register_misc(E):
     E.model(r' as ToOwned>::to_owned$',m_clone)
 _old_register_all5=register_all
@@ -2465,7 +2536,9 @@ def m_dt_add_delta(sign):
         return r
     return m
 def m_vec_write_fmt(e,run,a,f):
-    v=deref(a[0]); bl,t=render_args(e,run,a[1])
+    v=deref(a[0]); run.precise_debug=True
+    try: bl,t=render_args(e,run,a[1])
+    finally: run.precise_debug=False
     if t: raise Unsupported('an opaque formatted value is written into a byte buffer')
     v.items.extend(Int(8,False,x) for x in bl)
     return ok(UNIT)
